@@ -591,7 +591,8 @@ def audit_plan(e, parts=None, schema=True, structure=True, ref=None):
                     a, b = dkind(meta.dtype), dkind(whole.dtype)
                     if a != b and not _schema_promotion_ok(a, b, whole) and not _ref_kind(ref, None, b):
                         problems.append({"oracle": "plan_schema", "symptom": "dtype-kind", "got": str(whole.dtype), "exp": str(meta.dtype), "has_na": bool(whole.isna().any())})
-                if not problems and not isinstance(whole.index, pd.MultiIndex):
+                part_index_kinds = {dkind((p if isinstance(p, pd.Index) else p.index).dtype) for p in parts if len(p)}
+                if not problems and not isinstance(whole.index, pd.MultiIndex) and not (dkind(meta.index.dtype) == "O" and len(part_index_kinds | {dkind(whole.index.dtype)}) >= 1 and dkind(whole.index.dtype) != "O" and len({dkind((p if isinstance(p, pd.Index) else p.index).dtype) for p in parts}) > 1):
                     a, b = dkind(meta.index.dtype), dkind(whole.index.dtype)
                     if a != b and not _schema_promotion_ok(a, b, whole.index.to_series()):
                         problems.append({"oracle": "plan_schema", "symptom": "index-dtype-kind", "got": str(whole.index.dtype), "exp": str(meta.index.dtype)})
